@@ -56,11 +56,11 @@ public:
         vk::world_t& w = vk::world(); vk::sock_rec* r = _r;
         if (!r->open || !r->connected) { vk::post_completion(std::move(handler), boost::system::error_code(error::not_connected), std::size_t(0)); return; }
         if (buffer_size(buffers) == 0) { vk::post_completion(std::move(handler), boost::system::error_code{}, std::size_t(0)); return; }
-        r->wlog_pos = w.wire.size(); std::size_t total = 0;
+        r->wdata.clear();
         for (auto it = buffer_sequence_begin(buffers); it != buffer_sequence_end(buffers); ++it) {
-          const_buffer b = *it; w.wire.append(static_cast<const char*>(b.data()), b.size()); total += b.size();
+          const_buffer b = *it; r->wdata.append(static_cast<const char*>(b.data()), b.size());
         }
-        r->wsize = total; w.writes_started++; w.wire_marks.push_back({r->id, r->wlog_pos});
+        r->writes++; w.writes_started++;
         auto slot = get_associated_cancellation_slot(handler);
         r->h_write = any_completion_handler<void(boost::system::error_code, std::size_t)>(std::move(handler));
         if (slot.is_connected()) slot.assign([r](cancellation_type_t) { if (r->h_write) vk::post_completion(std::move(r->h_write), boost::system::error_code(error::operation_aborted), std::size_t(0)); });
